@@ -3,7 +3,7 @@ the shared machinery).  The table of each decoder is taken at the call site's va
 sentinel written at the wrong resolution shows up as an empty None class."""
 from __future__ import annotations
 from ..domains import IntSet
-from .c10 import numeric_fields, field_table, SENT
+from .c10 import numeric_fields, field_table, collect_inline, SENT
 from .common import flatten, unwrap_message
 from .c04 import infer_shape
 from ..spec import itu
@@ -21,7 +21,7 @@ def sentinel_of(kind):
 def run(ctx, chk):
     cfgs = ctx.configs()
     ctx.prefetch(cfgs)
-    cache = {}
+    cache = {"inline": collect_inline(ctx, cfgs)}
     done = set()
     n = 0
     for (cfg, I, C, struct, p, kind, offw, term, o) in numeric_fields(ctx, cfgs):
